@@ -159,6 +159,35 @@ def make_symbolic(spec, name, reg, st):
             n = fresh(name + '_len', 'int')
             st.fact(n >= 0)
             kind = spec[1]
+            if isinstance(kind, tuple) and kind[0] == 'arr':
+                # sequence of arrays: element k has its own shape and contents
+                nd, ek, flags = kind[1], kind[2], kind[3:]
+                sort = {'int': z3.IntSort(), 'real': z3.RealSort(), 'bool': z3.BoolSort()}[ek]
+                uid = id(n)
+                dims = [z3.Function(f'{name}_n{d}!{uid}', z3.IntSort(), z3.IntSort())
+                        for d in range(nd)]
+                vals = z3.Function(f'{name}!{uid}', *([z3.IntSort()] * (nd + 1)), sort)
+                fin = z3.Function(f'{name}_finite!{uid}', *([z3.IntSort()] * (nd + 1)),
+                                  z3.BoolSort()) if 'nonfinite' in flags else None
+                q = z3.Int(f'bv!seqarr{uid}')
+                for d in dims:
+                    st.fact(z3.ForAll([q], d(q) >= (1 if 'nonempty' in flags else 0)))
+                cache = {}
+
+                def elem(k, dims=dims, vals=vals, fin=fin):
+                    kt = _int(k)
+                    key = kt.get_id() if hasattr(kt, 'get_id') else kt
+                    if key in cache:
+                        return cache[key]
+                    shape = tuple(d(kt) for d in dims)
+                    store = ArrStore(shape, lambda idx: vals(kt, *[_int(i) for i in idx]), ek,
+                                     f'{name}[{k}]')
+                    if fin is not None:
+                        store.finite = lambda idx: fin(kt, *[_int(i) for i in idx])
+                    store.frozen = True
+                    cache[key] = view_of(store)
+                    return cache[key]
+                return SSeq(n, elem, 'obj', name)
             if kind in ('int', 'real', 'bool'):
                 f = z3.Function(f'{name}!{id(n)}', z3.IntSort(),
                                 {'int': z3.IntSort(), 'real': z3.RealSort(),
